@@ -255,4 +255,45 @@ def run(ctx):
         run.inst("C01.R7", "no-rejection-in-domain", not live_err,
                  "%d explicit error results in lonlat_to_cell / lonlat_to_estimate, reachable for latitude in [-90,90], finite longitude, resolution 0..29: %s" % (nerr, sorted(set(live_err)) or "none"), w)
 
-    run.floor("C01", "rule instances", len(run.instances), 12)
+    # ---- R8: every probe of the spiral is looked at: the probe list gets one entry per spiral index (no entry is filtered
+    # out by its coordinates - a query given as lon +- 360 must see the same neighbourhood) and every entry is estimated
+    from ..query import every_iteration as _ev
+    lps8 = [l for l in loops_of(ft) if l.next and l.item is not None]
+    est_loops = []
+    for l in lps8:
+        for c in ft.calls():
+            if c.callee == EST and c.block in l.own and c.args and strip_site(peel(c.args[0])) == strip_site(l.item):
+                est_loops.append((l, c))
+    if len(est_loops) != 1:
+        run.bad("C01.R8", "probes-unfiltered", "expected one loop estimating every probe, found %d - unrecognised idiom, cannot decide" % len(est_loops), w)
+    else:
+        l8, c8 = est_loops[0]
+        why8 = None
+        if not _ev(ft, l8, c8.block):
+            why8 = "lonlat_to_estimate is not called for every probe of the list"
+        FILT = ("filter", "filter_map", "take_while", "skip_while", "step_by", "skip", "take", "dedup", "retain", "flat_map")
+        src8 = l8.source
+        names8 = [x[1].split("::")[-1] for x in walk(src8) if x[0] == "call" and isinstance(x[1], str)] if src8 is not None else ["?"]
+        if why8 is None and any(n in FILT for n in names8):
+            why8 = "the probe sequence passes through %s" % sorted(set(n for n in names8 if n in FILT))
+        base8 = src8
+        while base8 is not None and base8[0] in ("ref", "deref", "call") and not (base8[0] == "call" and not base8[2]):
+            base8 = base8[2] if base8[0] == "ref" else (base8[1] if base8[0] == "deref" else base8[2][0])
+        if why8 is None and base8 is not None and base8[0] in ("phi", "escaped"):
+            key8 = "_%d" % (base8[3] if base8[0] == "phi" else base8[1])
+            for pc in pushes_to(ft, key8):
+                if not pc.callee.endswith("Vec::push"):
+                    ns = [x[1].split("::")[-1] for a in pc.args for x in walk(a) if x[0] == "call" and isinstance(x[1], str)]
+                    if any(n in FILT for n in ns):
+                        why8 = "the probe list is extended through %s" % sorted(set(n for n in ns if n in FILT))
+                    continue
+                inl = [l for l in lps8 + [l2 for l2 in loops_of(ft) if l2.counter] if pc.block in l.own]
+                if inl and not _ev(ft, inl[0], pc.block):
+                    why8 = "a probe is added to the list only under a condition (push not on every iteration of its loop)"
+            for mc in mutators_of(ft, key8):
+                if mc.callee and mc.callee.split("::")[-1] in ("retain", "dedup", "dedup_by", "dedup_by_key", "truncate", "drain", "remove", "swap_remove", "pop"):
+                    why8 = "the probe list is thinned by %s" % mc.callee.split("::")[-1]
+        run.inst("C01.R8", "probes-unfiltered", why8 is None,
+                 "every spiral index contributes its probe and every probe is estimated" if why8 is None else why8, where(c8.span))
+
+    run.floor("C01", "rule instances", len(run.instances), 13)
